@@ -477,6 +477,8 @@ def fault_conts(kind, keys, tier):
         [{"op": "push", "k": "z", "r": 3}, {"op": "push", "k": "y", "r": 4}, {"op": "push", "k": "x", "r": 2}] + [{"op": pm[0]}] * 3,
         [{"op": "contents"}, {"op": "iter_calls", "it": "drain", "calls": [0, 0]}, {"op": "push", "k": "z", "r": 1}, {"op": pm[0]}],
         [{"op": "extend", "pairs": [["z", 1], [keys[0], 2]]}, {"op": "convert"}, {"op": "pop" if kind == "dpq" else "pop_min"}],
+        [{"op": pm[0]}, {"op": pm[-1]}, {"op": "change_priority", "k": "z", "r": 4}, {"op": "change_priority", "k": keys[-1], "r": -4},
+         {"op": "change_priority_by", "k": "y", "r": 6}, {"op": pm[0]}],
     ]
     if tier == "thorough":
         # second faults inside the continuation
@@ -515,6 +517,9 @@ def fault_ops(kind, keys, maxp):
     ops.append({"op": "extend", "pairs": [["z", maxp + 3], [keys[0], -3], ["y", 0]], "hint": [0, -1]})
     ops.append({"op": "convert"})
     ops.append({"op": "clone_into", "to": 5})
+    # append with a second queue (rebuilt before every attempt): other shorter, equal, longer; with clashes
+    for oth in ([["z", 1]], [["z", 1], [keys[0], maxp]], [["z", 1], ["y", 0], [keys[-1], 2], ["x", 3]]):
+        ops.append({"op": "append", "o": 3, "obuild": [{"op": "push", "k": k, "r": r} for k, r in oth]})
     return ops
 
 
